@@ -68,6 +68,11 @@ func buildEvidence(spec *Spec, tier string, seed int, results []*EntryResult, ws
 				samples = append(samples, map[string]string{"entry": er.Cfg.Func, "path_condition": s})
 			}
 		}
+		for _, s := range er.DecSamples {
+			if len(samples) < 24 {
+				samples = append(samples, map[string]string{"entry": er.Cfg.Func, "decision_sequence": s})
+			}
+		}
 	}
 	if len(samples) == 0 {
 		for _, er := range results {
@@ -95,6 +100,7 @@ func buildEvidence(spec *Spec, tier string, seed int, results []*EntryResult, ws
 		"explore_s":           exploreT.Seconds(),
 		"solver":              solverDesc,
 		"stubs":               spec.Stubs,
+		"instrumented_sources": instrumentedSources,
 		"known_findings_reported": nknown,
 		"inconclusive_models": inconclusive,
 		"confirmed_violations": confirmed,
@@ -115,6 +121,9 @@ func buildEvidence(spec *Spec, tier string, seed int, results []*EntryResult, ws
 }
 
 var solverDesc = "z3"
+
+// instrumentedSources lists the files of /repo that were instrumented for this run.
+var instrumentedSources []string
 
 func maxInt(a, b int) int {
 	if a > b {
